@@ -4,8 +4,10 @@ pub struct Error { inner: () }
 
 impl Error {
     #[verifier::external_body] pub fn new(_kind: error::Kind) -> Error { Error { inner: () } }
-    #[verifier::external_body] pub fn with<S>(self, _source: S) -> Error { self }
+    // `with` attaches the source (a message text, another error): what was attached is remembered (ghost: err_with)
+    #[verifier::external_body] pub fn with<S>(self, source: S) -> (r: Error) ensures err_with::<S>(r) == Some(source) { self }
 }
+pub uninterp spec fn err_with<S>(e: Error) -> Option<S>;
 
 pub mod error {
     use super::*;
